@@ -193,10 +193,11 @@ Init == /\ initc \in InitConts
         /\ gen = [k \in Keys |-> 0]
         /\ done = [t \in Threads |-> <<>>]
 
-Next == \/ \E t \in Threads : Start(t) \/ Acq(t) \/ Step(t) \/ Rel(t) \/ Disp(t) \/ Ret(t)
+\* (StartOp / Acq as separate steps are used by the trace monitor only, see LRUConc_Trace)
+Next == \/ \E t \in Threads : Start(t) \/ Step(t) \/ Rel(t) \/ Disp(t) \/ Ret(t)
         \/ Finished
 Spec == Init /\ [][Next]_vars
-FairSpec == Spec /\ WF_vars(\E t \in Threads : Start(t) \/ Acq(t) \/ Step(t) \/ Rel(t) \/ Disp(t) \/ Ret(t))
+FairSpec == Spec /\ WF_vars(\E t \in Threads : Start(t) \/ Step(t) \/ Rel(t) \/ Disp(t) \/ Ret(t))
 
 -----------------------------------------------------------------------------
 (* Properties checked by TLC over all interleavings (stage 1)                                  *)
